@@ -1,4 +1,326 @@
 package main
 
-// Field-access instrumentation is added in a later step; until then this is a no-op.
-func (in *instr) instrumentAccesses() {}
+import (
+	"go/ast"
+	"go/token"
+	"go/types"
+	"strings"
+
+	"golang.org/x/tools/go/ast/astutil"
+)
+
+// Field-access instrumentation (type-directed).
+//
+// Reads of x.f, where f is a field of a struct declared in the repository and
+// x is a pure, addressable chain (identifiers, selectors, derefs), become
+//
+//	*vrt.R(&x.f, "T.f", "T.f@Func")
+//
+// which keeps the evaluation order exact. Writes are instrumented at statement
+// level: vrt.Pre(...) before the assignment (a scheduling point when the
+// location is in the racy set) and vrt.W(&x.f, ...) after it, because the store
+// is the last action of an assignment. Map contents (x.f[k], len(x.f),
+// delete(x.f,k), range x.f) are a separate location "T.f[]".
+
+type accessPlan struct {
+	reads    map[*ast.SelectorExpr]accessInfo // selector -> info (read wrap)
+	mapReads map[*ast.SelectorExpr]bool       // also log a contents read
+}
+
+type accessInfo struct {
+	loc  string
+	site string
+}
+
+func (in *instr) ownerOf(v *types.Var) string {
+	if in.owners == nil {
+		in.owners = map[*types.Var]string{}
+		scope := in.pkg.Types.Scope()
+		for _, name := range scope.Names() {
+			tn, ok := scope.Lookup(name).(*types.TypeName)
+			if !ok {
+				continue
+			}
+			st, ok := tn.Type().Underlying().(*types.Struct)
+			if !ok {
+				continue
+			}
+			for i := 0; i < st.NumFields(); i++ {
+				in.owners[st.Field(i)] = tn.Name()
+			}
+		}
+		// structs of the other repository packages (promoted fields)
+		for _, imp := range in.pkg.Imports {
+			if !strings.HasPrefix(imp.PkgPath, modPath+"/") || imp.Types == nil {
+				continue
+			}
+			sc := imp.Types.Scope()
+			for _, name := range sc.Names() {
+				tn, ok := sc.Lookup(name).(*types.TypeName)
+				if !ok {
+					continue
+				}
+				if st, ok := tn.Type().Underlying().(*types.Struct); ok {
+					for i := 0; i < st.NumFields(); i++ {
+						in.owners[st.Field(i)] = tn.Name()
+					}
+				}
+			}
+		}
+	}
+	return in.owners[v]
+}
+
+// fieldSel reports whether e is an instrumentable field selection.
+func (in *instr) fieldSel(e ast.Expr) (*ast.SelectorExpr, accessInfo, bool) {
+	sel, ok := e.(*ast.SelectorExpr)
+	if !ok {
+		return nil, accessInfo{}, false
+	}
+	s := in.info().Selections[sel]
+	if s == nil || s.Kind() != types.FieldVal {
+		return nil, accessInfo{}, false
+	}
+	v, ok := s.Obj().(*types.Var)
+	if !ok || v.Pkg() == nil || !strings.HasPrefix(v.Pkg().Path(), modPath+"/") {
+		return nil, accessInfo{}, false
+	}
+	owner := in.ownerOf(v)
+	if owner == "" {
+		return nil, accessInfo{}, false
+	}
+	if !in.sharedRoot(sel.X) {
+		return nil, accessInfo{}, false
+	}
+	loc := owner + "." + v.Name()
+	return sel, accessInfo{loc: loc, site: loc + "@" + in.funcName}, true
+}
+
+// sharedRoot: x must be a pure chain whose root is a variable that can refer to
+// shared memory (a pointer, or a non-local variable).
+func (in *instr) sharedRoot(e ast.Expr) bool {
+	switch x := e.(type) {
+	case *ast.Ident:
+		obj := in.info().Uses[x]
+		v, ok := obj.(*types.Var)
+		if !ok {
+			return false
+		}
+		if _, isPtr := v.Type().Underlying().(*types.Pointer); isPtr {
+			return true
+		}
+		// a struct value: only package-level variables can be shared
+		return v.Parent() == in.pkg.Types.Scope()
+	case *ast.SelectorExpr:
+		if s := in.info().Selections[x]; s != nil && s.Kind() == types.FieldVal {
+			return in.sharedRootOrField(x.X)
+		}
+		return false
+	case *ast.ParenExpr:
+		return in.sharedRoot(x.X)
+	case *ast.StarExpr:
+		return in.sharedRoot(x.X)
+	}
+	return false
+}
+
+func (in *instr) sharedRootOrField(e ast.Expr) bool { return in.sharedRoot(e) }
+
+func (in *instr) isMapType(e ast.Expr) bool {
+	tv, ok := in.info().Types[e]
+	if !ok {
+		return false
+	}
+	_, isMap := tv.Type.Underlying().(*types.Map)
+	return isMap
+}
+
+func addrOf(e ast.Expr) ast.Expr { return &ast.UnaryExpr{Op: token.AND, X: e} }
+
+func (in *instr) wrapRead(sel *ast.SelectorExpr, ai accessInfo, fn string) ast.Expr {
+	in.needVrt = true
+	return &ast.ParenExpr{X: &ast.StarExpr{X: &ast.CallExpr{Fun: vrtSel(fn), Args: []ast.Expr{addrOf(sel), strLit(ai.loc), strLit(ai.site)}}}}
+}
+
+func (in *instr) stmtCall(fn string, args ...ast.Expr) ast.Stmt {
+	in.needVrt = true
+	return &ast.ExprStmt{X: &ast.CallExpr{Fun: vrtSel(fn), Args: args}}
+}
+
+func unparen(e ast.Expr) ast.Expr {
+	for {
+		p, ok := e.(*ast.ParenExpr)
+		if !ok {
+			return e
+		}
+		e = p.X
+	}
+}
+
+func (in *instr) instrumentAccesses() {
+	for _, decl := range in.file.Decls {
+		fd, ok := decl.(*ast.FuncDecl)
+		if !ok || fd.Body == nil {
+			continue
+		}
+		name := fd.Name.Name
+		if fd.Recv != nil && len(fd.Recv.List) == 1 {
+			name = recvName(fd.Recv.List[0].Type) + "." + name
+		}
+		in.funcName = name
+		in.instrumentBody(fd.Body)
+	}
+	in.funcName = ""
+}
+
+func (in *instr) instrumentBody(body *ast.BlockStmt) {
+	// 1. plan on the original tree
+	lhs := map[ast.Expr]bool{}       // expressions in store position (not reads)
+	addrTaken := map[ast.Expr]bool{} // operands of &
+	type writePlan struct {
+		pre, post []ast.Stmt
+	}
+	writes := map[ast.Stmt]*writePlan{}
+	rangeReads := map[*ast.RangeStmt][]ast.Stmt{}
+	storeIndex := map[*ast.SelectorExpr]bool{} // x.f in store position x.f[k] = v: a header read only
+
+	planStore := func(stmt ast.Stmt, target ast.Expr) {
+		t := unparen(target)
+		wp := writes[stmt]
+		if wp == nil {
+			wp = &writePlan{}
+		}
+		switch x := t.(type) {
+		case *ast.SelectorExpr:
+			if sel, ai, ok := in.fieldSel(x); ok {
+				lhs[sel] = true
+				wp.pre = append(wp.pre, in.stmtCall("Pre", strLit(ai.loc), strLit(ai.site)))
+				wp.post = append(wp.post, in.stmtCall("W", addrOf(sel), strLit(ai.loc), strLit(ai.site)))
+				in.stats["field_writes"]++
+			}
+		case *ast.IndexExpr:
+			if sel, ai, ok := in.fieldSel(unparen(x.X)); ok {
+				ai2 := accessInfo{loc: ai.loc + "[]", site: ai.loc + "[]@" + in.funcName}
+				wp.pre = append(wp.pre, in.stmtCall("Pre", strLit(ai2.loc), strLit(ai2.site)))
+				wp.post = append(wp.post, in.stmtCall("WM", addrOf(sel), strLit(ai2.loc), strLit(ai2.site)))
+				storeIndex[sel] = true
+				in.stats["content_writes"]++
+			}
+		}
+		if len(wp.pre) > 0 {
+			writes[stmt] = wp
+		}
+	}
+
+	ast.Inspect(body, func(n ast.Node) bool {
+		switch s := n.(type) {
+		case *ast.AssignStmt:
+			if s.Tok != token.DEFINE {
+				for _, l := range s.Lhs {
+					planStore(s, l)
+				}
+			}
+		case *ast.IncDecStmt:
+			planStore(s, s.X)
+		case *ast.UnaryExpr:
+			if s.Op == token.AND {
+				addrTaken[unparen(s.X)] = true
+			}
+		case *ast.ExprStmt:
+			// delete(x.f, k)
+			if call, ok := s.X.(*ast.CallExpr); ok {
+				if id, ok := call.Fun.(*ast.Ident); ok && id.Name == "delete" && len(call.Args) == 2 {
+					if sel, ai, ok := in.fieldSel(unparen(call.Args[0])); ok {
+						ai2 := accessInfo{loc: ai.loc + "[]", site: ai.loc + "[]@" + in.funcName}
+						writes[s] = &writePlan{
+							pre:  []ast.Stmt{in.stmtCall("Pre", strLit(ai2.loc), strLit(ai2.site))},
+							post: []ast.Stmt{in.stmtCall("WM", addrOf(sel), strLit(ai2.loc), strLit(ai2.site))},
+						}
+						in.stats["content_writes"]++
+					}
+				}
+			}
+		case *ast.RangeStmt:
+			if sel, ai, ok := in.fieldSel(unparen(s.X)); ok && in.isMapType(s.X) {
+				lhs[sel] = true // not wrapped (the map-range rewrite needs the plain expression)
+				ai2 := accessInfo{loc: ai.loc + "[]", site: ai.loc + "[]@" + in.funcName}
+				rangeReads[s] = []ast.Stmt{in.stmtCall("RMs", addrOf(sel), strLit(ai2.loc), strLit(ai2.site))}
+				in.stats["content_reads"]++
+			}
+		}
+		return true
+	})
+
+	plan := accessPlan{reads: map[*ast.SelectorExpr]accessInfo{}, mapReads: map[*ast.SelectorExpr]bool{}}
+	ast.Inspect(body, func(n ast.Node) bool {
+		switch x := n.(type) {
+		case *ast.SelectorExpr:
+			if lhs[x] || addrTaken[x] {
+				return true
+			}
+			if sel, ai, ok := in.fieldSel(x); ok {
+				plan.reads[sel] = ai
+			}
+		case *ast.IndexExpr:
+			if sel, _, ok := in.fieldSel(unparen(x.X)); ok && in.isMapType(x.X) && !storeIndex[sel] {
+				plan.mapReads[sel] = true
+			}
+		case *ast.CallExpr:
+			if id, ok := x.Fun.(*ast.Ident); ok && (id.Name == "len") && len(x.Args) == 1 {
+				if sel, _, ok := in.fieldSel(unparen(x.Args[0])); ok && in.isMapType(x.Args[0]) {
+					plan.mapReads[sel] = true
+				}
+			}
+		}
+		return true
+	})
+
+	// 2. rewrite reads bottom-up
+	astutil.Apply(body, nil, func(c *astutil.Cursor) bool {
+		sel, ok := c.Node().(*ast.SelectorExpr)
+		if !ok {
+			return true
+		}
+		ai, ok := plan.reads[sel]
+		if !ok {
+			return true
+		}
+		// never rewrite the operand position of a selector that names a method
+		// value or a qualified identifier: fieldSel already excluded those.
+		if p, isSel := c.Parent().(*ast.SelectorExpr); isSel && p.Sel == c.Node() {
+			return true
+		}
+		fn := "R"
+		if plan.mapReads[sel] {
+			fn = "RM"
+			in.stats["content_reads"]++
+		}
+		in.stats["field_reads"]++
+		c.Replace(in.wrapRead(sel, ai, fn))
+		return true
+	})
+
+	// 3. insert the statement-level calls
+	astutil.Apply(body, nil, func(c *astutil.Cursor) bool {
+		stmt, ok := c.Node().(ast.Stmt)
+		if !ok || c.Index() < 0 {
+			return true
+		}
+		if wp := writes[stmt]; wp != nil {
+			for _, p := range wp.pre {
+				c.InsertBefore(p)
+			}
+			for i := len(wp.post) - 1; i >= 0; i-- {
+				c.InsertAfter(wp.post[i])
+			}
+			delete(writes, stmt)
+		}
+		if rs, ok := stmt.(*ast.RangeStmt); ok {
+			for _, p := range rangeReads[rs] {
+				c.InsertBefore(p)
+			}
+		}
+		return true
+	})
+	in.stats["skipped_writes"] += len(writes)
+}
